@@ -26,14 +26,14 @@ def short(viol):
 
 
 rows = []
-for d in sorted(glob.glob(os.path.join(V, 'seeded', 'C*_[12]'))) + sorted(glob.glob(os.path.join(V, 'seeded', 'b2_C*_[12]'))) + sorted(glob.glob(os.path.join(V, 'seeded', 'b3_C*_[12]'))) + sorted(glob.glob(os.path.join(V, 'seeded', 'b4_C*_[12]'))):
+for d in sorted(glob.glob(os.path.join(V, 'seeded', 'C*_[12]'))) + sorted(glob.glob(os.path.join(V, 'seeded', 'b2_C*_[12]'))) + sorted(glob.glob(os.path.join(V, 'seeded', 'b3_C*_[12]'))) + sorted(glob.glob(os.path.join(V, 'seeded', 'b4_C*_[12]'))) + sorted(glob.glob(os.path.join(V, 'seeded', 'b5_C*_[12]'))):
     m = os.path.basename(d)
     rf = os.path.join(rd, m + '.json')
     if not os.path.exists(rf):
         continue
     res = json.load(open(rf))
     viol, und, why = summarise(res)
-    prop = m.replace('b2_', '').replace('b3_', '').replace('b4_', '').split('_')[0]
+    prop = m.replace('b2_', '').replace('b3_', '').replace('b4_', '').replace('b5_', '').split('_')[0]
     if os.path.exists(os.path.join(d, 'confirm.json')):
         confirm[m] = json.load(open(os.path.join(d, 'confirm.json')))
     notes = open(os.path.join(d, 'notes.md')).read() if os.path.exists(os.path.join(d, 'notes.md')) else ''
